@@ -19,6 +19,7 @@
 
 static uint8_t T[KV_N + 1], P[KV_M + 1];
 static int prev[KV_M + 1], cur[KV_M + 1];
+static uint8_t kv_code[KV_SIGMA];
 
 static int ref_min_distance(void)
 {
@@ -47,8 +48,27 @@ void h_c11_bpm_block(void)
 #endif
         /* the last KV_FREE symbols of text and pattern are symbolic, the others are the fixed symbol 1
            (large shapes: a fully symbolic 64x64 problem does not finish) */
-        for(i = 0; i < KV_N; i++){ if(i >= KV_N - KV_FREE){ T[i] = kv_in_u8(); KV_ASSUME(T[i] < KV_SIGMA); }else{ T[i] = 1; } }
-        for(i = 0; i < KV_M; i++){ if(i >= KV_M - KV_FREE){ P[i] = kv_in_u8(); KV_ASSUME(P[i] < KV_SIGMA); }else{ P[i] = 1; } }
+        /* the KV_SIGMA abstract symbols stand for ANY KV_SIGMA pairwise different codes of the 13-symbol alphabet (a symbolic
+           injective renaming): every string with at most KV_SIGMA different symbols is covered, whichever codes it uses --
+           in particular the last code, 12 (X / N).  (Added after seed C12_d: with the codes fixed to 0..KV_SIGMA-1 a Peq
+           table that leaves out code 12 passed every shape.) */
+        {
+                int k, l;
+#ifdef KV_FIXCODES
+                /* long shapes: the renaming is concrete (symbolic codes make m64_n64 run 380 s instead of 50 s); it still
+                   contains the last code of the alphabet */
+                static const uint8_t fix[KV_SIGMA] = KV_FIXCODES;
+                for(k = 0; k < KV_SIGMA; k++){ kv_code[k] = fix[k]; }
+                (void)l;
+#else
+                for(k = 0; k < KV_SIGMA; k++){
+                        kv_code[k] = kv_in_u8(); KV_ASSUME(kv_code[k] < 13);
+                        for(l = 0; l < k; l++){ KV_ASSUME(kv_code[k] != kv_code[l]); }
+                }
+#endif
+        }
+        for(i = 0; i < KV_N; i++){ if(i >= KV_N - KV_FREE){ uint8_t y = kv_in_u8(); KV_ASSUME(y < KV_SIGMA); T[i] = kv_code[y]; }else{ T[i] = kv_code[1 % KV_SIGMA]; } }
+        for(i = 0; i < KV_M; i++){ if(i >= KV_M - KV_FREE){ uint8_t y = kv_in_u8(); KV_ASSUME(y < KV_SIGMA); P[i] = kv_code[y]; }else{ P[i] = kv_code[1 % KV_SIGMA]; } }
         ref = ref_min_distance();
         got = bpm_block(T, P, KV_N, KV_M);
         KV_CHECK(got == ref, "bpm_block == minimum over all text positions of the edit distance to the pattern");
